@@ -41,6 +41,8 @@ impl AuthenticationAdapter for MojangAdapter {
         let url = format!(
             "https://sessionserver.mojang.com/session/minecraft/hasJoined?username={username}&serverId={hash}"
         );
+        #[cfg(passage_verif)]
+        let url = verif_session_base(url.as_str());
         let profile = HTTP_CLIENT
             .get(&url)
             .send()
@@ -62,4 +64,21 @@ impl AuthenticationAdapter for MojangAdapter {
             })?;
         Ok(profile)
     }
+}
+
+/// Verification hook (only compiled with `--cfg passage_verif`): if the environment variable
+/// `PASSAGE_VERIF_SESSION_BASE` is set (e.g. to `http://127.0.0.1:8080`), the scheme, host and
+/// port of the session server URL are replaced by it, so that the request can be observed by a
+/// local mock. The path and the query are kept byte for byte.
+#[cfg(passage_verif)]
+fn verif_session_base(url: &str) -> String {
+    let Ok(base) = std::env::var("PASSAGE_VERIF_SESSION_BASE") else {
+        return url.to_owned();
+    };
+    // skip "<scheme>://<authority>", keep everything from the first '/' of the path
+    let authority = url.find("://").map_or(0, |i| i + 3);
+    let rest = url[authority..]
+        .find('/')
+        .map_or("", |i| &url[authority + i..]);
+    format!("{base}{rest}")
 }
